@@ -19,6 +19,11 @@ CONSTANTS Codecs,          \* subset of {"v1", "v2"}
           PostSizes,       \* sizes offered for the one entry appended after the recovery ({} = no post phase)
           PostWithDamage,  \* run the post phase on damaged images too
           MaxLost,
+          MinRounds, MaxRounds, \* history: number of append+TruncateLog rounds in front of the final appends (0, 0 = none)
+          HistSizes,       \* payload sizes offered for the entries appended in a round
+          MaxApp,          \* entries appended per round
+          WithClear,       \* TruncateLog(-1) = wal.Clear is offered as a truncation point
+          TearStates,      \* record states a crash may leave ({"complete", "absent", "tornh", "tornp"} = all)
           Guarded,         \* known findings are attributed (TRUE) or reported (FALSE)
           Export
 
@@ -29,15 +34,29 @@ NoOut == [res |-> "na", ents |-> <<>>, first |-> -1, last |-> -1, pres |-> "none
 
 Seqs(S, n) == UNION {[1..k -> S] : k \in 0..n}
 
-Pre == {[codec |-> c, seg |-> sg, sizes |-> sz, synced |-> sy, commit |-> cm,
-         rs |-> [i \in 1..Len(sz) |-> "complete"], lost |-> 0,
-         idx |-> <<>>, dmg |-> None, post |-> <<>>] :
-           c \in Codecs, sg \in SegSizes, sz \in Seqs(Sizes, MaxRec), sy \in -1..(MaxRec - 1), cm \in -1..(MaxRec - 1)}
+\* histories: every sequence of MinRounds..MaxRounds rounds "append 1..MaxApp entries, TruncateLog(k)" with every
+\* truncation point MinKeep..last (last = nothing removed), built forwards
+MinKeep == IF WithClear THEN -1 ELSE 0
+RoundsAfter(h) == LET lg == HFinal(h) IN
+    UNION {{[app |-> a, keep |-> k] : k \in MinKeep..(Len(lg) + Len(a) - 1)} : a \in Seqs(HistSizes, MaxApp) \ {<<>>}}
+RECURSIVE HistsOfLen(_)
+HistsOfLen(n) == IF n = 0 THEN {<<>>}
+                 ELSE UNION {{h \o <<rd>> : rd \in RoundsAfter(h)} :
+                                h \in HistsOfLen(n - 1)}
+Hists == UNION {HistsOfLen(n) : n \in MinRounds..MaxRounds}
+
+\* the final log: what the history left, completed by further appends
+Pre == {[codec |-> c, seg |-> sg, sizes |-> HFinal(h) \o tl, synced |-> sy, commit |-> cm,
+         rs |-> [i \in 1..(Len(HFinal(h)) + Len(tl)) |-> "complete"], lost |-> 0,
+         idx |-> <<>>, dmg |-> None, post |-> <<>>, hist |-> h] :
+           c \in Codecs, sg \in SegSizes, h \in Hists, tl \in Seqs(Sizes, MaxRec), sy \in -1..(MaxRec - 1), cm \in -1..(MaxRec - 1)}
 
 Init == /\ phase = "pre" /\ out = NoOut
-        /\ img \in {p \in Pre : p.synced < N(p) /\ p.commit <= p.synced /\ \A i \in 1..N(p) : H(p) + p.sizes[i] <= p.seg}
+        /\ img \in {p \in Pre : /\ N(p) <= MaxRec /\ p.synced < N(p) /\ p.commit <= p.synced
+                                 /\ \A i \in 1..N(p) : H(p) + p.sizes[i] <= p.seg
+                                 /\ HistOK(p)}
 
-States(c) == IF c = "v1" THEN {"complete", "absent"} ELSE {"complete", "absent", "tornh", "tornp"}
+States(c) == IF c = "v1" THEN {"complete", "absent"} ELSE {"complete", "absent", "tornh", "tornp"} \cap TearStates
 IdxOf(c) == IF c = "v1" THEN IdxStates \cap {"ok", "missing"} ELSE IdxStates
 
 KindTable == [n \in {"size.s0", "size.s1", "size.exact", "size.plus1", "size.max31", "size.ovf_lo", "size.ovf_at", "size.ovf_max"} |->
@@ -100,6 +119,11 @@ CommittedDamageReported == (Done /\ Damaged(img) /\ D(img) <= img.commit /\ Kf(i
 TailDamageDiscarded == (Done /\ Damaged(img) /\ D(img) > img.commit /\ Kf(img) = {} /\ ~IdxDamaged(img)) =>
                          /\ out.res = "ok" /\ out.ents = Ids(Len(out.ents)) /\ Len(out.ents) <= D(img)
 NothingFabricated == (Done /\ out.pres = "ok" /\ Kf(img) = {}) => out.pents = out.ents \o [j \in 1..Len(img.post) |-> 100 + j - 1]
+\* what a truncation removed never comes back (ids of removed entries are >= 200)
+NothingResurrected == Done => /\ \A k \in 1..Len(out.ents) : ~IsStaleId(out.ents[k])
+                              /\ \A k \in 1..Len(out.pents) : ~IsStaleId(out.pents[k])
+\* the history leaves nothing but the log in the files (holds for the current code; the mutant breaks it)
+NoResidue == FinalResidue(img) = {}
 \* a recorded finding never hides anything but its own symptom
 FindingsNarrow == (Done /\ Kf(img) # {} /\ ~RecoveryOk(img, out)) => Symptom(img, out)
 \* every image handed to the harness is in the domain of the crash model
